@@ -219,7 +219,7 @@ func genHonest(g *genState, big bool) {
 		}
 		if big && k == 0 {
 			size = 65535 - 4*ihl - r.Intn(3)*r.Intn(9)
-			if r.Chance(30) {
+			if r.Chance(20) {
 				size = 1480 * (20 + r.Intn(24))
 			}
 		}
@@ -253,6 +253,18 @@ func genHonest(g *genState, big bool) {
 		case 2:
 			dst = 0xc0a80004
 			id = 100
+		}
+		if big && k == 0 && r.Chance(40) { // a last fragment beyond offset 8183 (legal up to 8189)
+			c := 8184 + r.Intn(6)
+			if r.Chance(40) {
+				c = 8189
+			}
+			if c*8 < size {
+				cuts = append(cuts, c)
+				for i := len(cuts) - 1; i > 0 && cuts[i-1] > cuts[i]; i-- {
+					cuts[i-1], cuts[i] = cuts[i], cuts[i-1]
+				}
+			}
 		}
 		fs := pieces(src, dst, id, ihl, optsFor(r, ihl), p, cuts)
 		if r.Chance(25) { // per-fragment header lengths (non-copied options only in the first)
@@ -380,7 +392,7 @@ func genMalformed(g *genState) {
 			f.flags, f.length, f.payload = 1, 20+r.Intn(8), nil
 			f.payload = r.Bytes(f.length - 20)
 		case 3: // offset too big
-			f.off = 8184 + r.Intn(3)
+			f.off = 8182 + r.Intn(10)
 		case 4: // uint16 wrap: offset*8 + Length >= 65536
 			f.off = 8183 - r.Intn(40)
 			pl := 65536 - f.off*8 - 20 + 8*r.Intn(6)
@@ -424,12 +436,72 @@ func genWrapAttack(g *genState) {
 	g.discard(farFuture)
 }
 
-// more fragments than the list cap: zero-length final fragments are appended without limit
-func genTooMany(g *genState, n int) {
+// Three overlapping fragments whose lengths sum to Highest+65536: the uint16 counter Current
+// wraps onto Highest and build runs through its overlap branch (the only way to get a datagram
+// out of an overlapping set).
+func genOverlapWrap(g *genState) {
 	r := g.r
 	g.emit("reset")
+	g.ts = 8500
+	var fs []gfrag
+	if r.Chance(30) { // three equal fragments, equal steps
+		d := 8 * (1 + r.Intn(1364))
+		l := d + 32768
+		for i := 0; i < 3; i++ {
+			fs = append(fs, gfrag{src: 9, dst: 8, id: 6, ihl: 5, flags: 1, off: i * d / 8, length: 20 + l, payload: r.Bytes(l)})
+		}
+	} else { // four fragments, irregular: l1+l2+l3 = 65536+c makes Current wrap onto Highest = c+l4
+		c := 8 * (1000 + r.Intn(1000))
+		b := 8 * (1 + r.Intn(c/8-1))
+		a := 8 * (1 + r.Intn(b/8))
+		if a >= b {
+			a = b - 8
+		}
+		if a < 8 {
+			a, b = 8, 16
+		}
+		l1 := 8 * (2750 + r.Intn(250))
+		l2 := 8 * (2750 + r.Intn(250))
+		l3 := 65536 + c - l1 - l2
+		maxEnd := l1
+		for _, e := range []int{a + l2, b + l3} {
+			if e > maxEnd {
+				maxEnd = e
+			}
+		}
+		l4 := maxEnd - c + 8*(1+r.Intn(100))
+		if c+l4 > 65515 {
+			l4 = 65515 - c
+		}
+		offs := []int{0, a, b, c}
+		lens := []int{l1, l2, l3, l4}
+		for i := range offs {
+			fs = append(fs, gfrag{src: 9, dst: 8, id: 6, ihl: 5, flags: 1, off: offs[i] / 8, length: 20 + lens[i], payload: r.Bytes(lens[i])})
+		}
+	}
+	fs[len(fs)-1].flags = 0
+	if r.Chance(70) {
+		// orders in which every fragment gets stored (a later fragment below Highest is only
+		// stored when a larger offset is already there): descending offsets, or last first
+		for i, j := 0, len(fs)-1; i < j; i, j = i+1, j-1 {
+			fs[i], fs[j] = fs[j], fs[i]
+		}
+		if r.Chance(50) && len(fs) == 4 {
+			fs[1], fs[2] = fs[2], fs[1]
+		}
+	} else {
+		fs = permute(r, fs)
+	}
+	for _, f := range fs {
+		g.in(f)
+	}
+	g.discard(farFuture)
+}
+
+// more fragments than the list cap: zero-length final fragments are appended without limit
+func genTooMany(g *genState, n int, mode int) {
+	g.emit("reset")
 	g.ts = 9000
-	mode := r.Intn(2)
 	for i := 0; i < n; i++ {
 		switch mode {
 		case 0: // zero-length finals at offset 8, never complete (Highest 8, Current 0)
@@ -531,10 +603,13 @@ func gen(r *lib.Rand, tier string, emit func(string)) {
 	for i := 0; i < 2; i++ {
 		genWrapAttack(g)
 	}
-	genTooMany(g, 8200)
-	genTooMany(g, 8200)
+	for i := 0; i < 4*scale; i++ {
+		genOverlapWrap(g)
+	}
+	genTooMany(g, 8200, 0)
+	genTooMany(g, 8200, 1)
 	if tier == "thorough" {
-		genTooMany(g, 17000)
+		genTooMany(g, 17000, 0)
 	}
 	for i := 0; i < 500*scale; i++ {
 		genDiscard(g)
